@@ -1466,3 +1466,87 @@ pub fn info_attr_defaults(doc: &str, expected: &str) -> Outcome {
     });
     Outcome { observed, expected: expected.to_string(), note: String::new() }
 }
+
+// ------------------------------------------------------------------------------------------------
+// C04: print, re-parse, print again: the second print equals the first and the re-parsed document equals the original
+
+pub const ROUNDTRIP_DOCS: [&str; 40] = [
+    "<r/>",
+    "<r></r>",
+    "<?xml version=\"1.0\"?><r/>",
+    "<?xml version=\"1.0\" encoding=\"UTF-8\" standalone=\"yes\"?><r/>",
+    "<?xml version='1.0' standalone='no'?>\n<!-- c -->\n<?p d?>\n<r/>\n<!-- t -->",
+    "<r a=\"1\" b='2'/>",
+    "<r a=\"it's\" b='say \"x\"'/>",
+    "<r a=\"&lt;&amp;&gt;&quot;&apos;\" b=\"&#65;&#x42;\"/>",
+    "<r>text &lt;&amp;&gt; &#65;&#x42; <![CDATA[<c>&d;]]> tail</r>",
+    "<r><a><b/></a><!--c--><?p d?><c>t</c></r>",
+    "<r xmlns=\"u\" xmlns:p=\"v\"><p:a p:b=\"1\"/></r>",
+    "<!DOCTYPE r><r/>",
+    "<!DOCTYPE r SYSTEM \"r.dtd\"><r/>",
+    "<!DOCTYPE r PUBLIC \"-//X//Y\" \"r.dtd\"><r/>",
+    "<!DOCTYPE r [<!ENTITY e \"v\">]><r a=\"&e;\">&e;</r>",
+    "<!DOCTYPE r [<!ENTITY e SYSTEM \"e.xml\"><!ENTITY u SYSTEM \"u.bin\" NDATA n><!NOTATION n SYSTEM \"n\">]><r/>",
+    "<!DOCTYPE r [<!ENTITY e PUBLIC \"p\" \"s\"><!NOTATION m PUBLIC \"q\">]><r/>",
+    "<!DOCTYPE r [<!ELEMENT r (a|b)*><!ELEMENT a EMPTY><!ELEMENT b (#PCDATA)>]><r><a/><b>t</b></r>",
+    "<!DOCTYPE r [<!ATTLIST r a CDATA #IMPLIED b (x|y) \"x\" c ID #REQUIRED d NMTOKENS #FIXED \"p q\">]><r c=\"i\"/>",
+    "<!DOCTYPE r [<!ATTLIST r a CDATA 'it\"s'>]><r/>",
+    "<!DOCTYPE r [<?p d?><!-- c -->]><r/>",
+    "<!DOCTYPE r [<!ENTITY a \"&#60;x&#62;\"><!ENTITY b 'say \"&a;\"'>]><r/>",
+    "<r>\u{e9}\u{20ac}\u{1d4b3}</r>",
+    "<\u{e9}l \u{e9}=\"\u{20ac}\"/>",
+    "<r> \n\t </r>",
+    "<r a=\" x  y \">  </r>",
+    "<!DOCTYPE r [<!NOTATION n SYSTEM \"n\"><!NOTATION m SYSTEM \"m\"><!ATTLIST r t NOTATION (n|m) #IMPLIED e (x|y|z) 'y'>]><r t=\"n\"/>",
+    "<!DOCTYPE p:r [<!ATTLIST p:r p:a CDATA #IMPLIED xmlns:p CDATA #FIXED 'u'>]><p:r xmlns:p=\"u\" p:a=\"1\"/>",
+    "<!DOCTYPE r [<!ENTITY e 'v'><!ATTLIST r a CDATA \"x&e;y&#65;&lt;\" b IDREFS #IMPLIED c ENTITY #IMPLIED d ENTITIES #IMPLIED f NMTOKEN #IMPLIED g IDREF #IMPLIED>]><r/>",
+    "<!DOCTYPE r [<!ATTLIST r a CDATA #IMPLIED><!ATTLIST r b CDATA 'd'><!ATTLIST s c CDATA #REQUIRED>]><r/>",
+    "<!DOCTYPE r [<!ATTLIST r>]><r/>",
+    "<r a=\"&#10;&#9;&#13;\">&#13;]]&gt;</r>",
+    "<r><?p?><?q   spaced  data ?><!----><!-- - --></r>",
+    "<r>a<![CDATA[]]>b<![CDATA[]]]]><![CDATA[>]]></r>",
+    "<!DOCTYPE r [<!ENTITY a 'it\"s'><!ENTITY b \"it's\"><!ENTITY c \"&#34;&#39;\">]><r/>",
+    "<!DOCTYPE r [<!ENTITY % p 'v'>]><r/>",
+    "<r a=\"\u{e9}&#xe9;\" xml:lang=\"fr\" xml:space=\"preserve\"> \u{e9} </r>",
+    "<r xmlns=\"\"><a xmlns=\"u\"><b xmlns=\"\"/></a></r>",
+    "<?xml version=\"1.1\"?><r/>",
+    "<?xml version=\"1.0\" encoding=\"ISO-8859-1\"?><r/>",
+];
+
+pub fn info_roundtrip(doc: &str) -> Outcome {
+    let observed = guard(|| {
+        let (rest, tree) = match xml_parser::document(doc) {
+            Ok(v) => v,
+            Err(_) => return "not accepted".to_string(),
+        };
+        if !rest.is_empty() {
+            return "not accepted".to_string();
+        }
+        let d1 = match xml_info::XmlDocument::new(&tree) {
+            Ok(d) => d,
+            Err(_) => return "not accepted".to_string(),
+        };
+        let p1 = format!("{}", d1.borrow());
+        let (rest2, tree2) = match xml_parser::document(p1.as_str()) {
+            Ok(v) => v,
+            Err(_) => return format!("the print does not parse: {:?}", p1),
+        };
+        if !rest2.is_empty() {
+            return format!("the print leaves {:?} unparsed: {:?}", rest2, p1);
+        }
+        let d2 = match xml_info::XmlDocument::new(&tree2) {
+            Ok(d) => d,
+            Err(_) => return format!("the print has no information set: {:?}", p1),
+        };
+        let p2 = format!("{}", d2.borrow());
+        if p1 != p2 {
+            return format!("second print differs: {:?} then {:?}", p1, p2);
+        }
+        if *d1.borrow() != *d2.borrow() {
+            return format!("re-parsed document is not equal to the original (print {:?})", p1);
+        }
+        "fixpoint".to_string()
+    });
+    let expected = if observed == "not accepted" { observed.clone() } else { "fixpoint".to_string() };
+    Outcome { observed, expected, note: String::new() }
+}
